@@ -171,7 +171,7 @@ def gaussian_blurring(
             for i in range(ngrids[0]):
                 for j in range(ngrids[1]):
                     for k in range(ngrids[2]):
-                        indice = i * ngrids[0] + j * ngrids[1] + k
+                        indice = (i * ngrids[1] + j) * ngrids[2] + k
                         grid_positions[n, indice] = [X[i], Y[j], Z[k]]
 
         for i in range(grid_positions.shape[1]):
